@@ -327,7 +327,7 @@ func TestC18(t *testing.T) {
 	}
 	name := "log look-ups and replay over write/clock histories"
 	if tz := os.Getenv("VERIF_TZ"); tz != "" {
-		name += " (process time zone " + tz + ", windows also given as UTC values)"
+		name += " (process time zone " + tz + ")"
 	}
 	rep := vh.NewReport("C18", name)
 	defer rep.Write()
@@ -367,4 +367,93 @@ func TestC18(t *testing.T) {
 	}
 	h.Explore()
 	rep.Bound = fmt.Sprintf("all histories of <=%d writes and <=%d clock moves (to 23:59:59, +2 s, +24 h, to month end, to the same day of the month one or two months on), length <=%d; names %v, 2 hashes, with/without rename; in each distinct state: 2 logs x 5 names x {no hash,h1,h2} x 6 windows (3 day-sized windows after a month move) + Parse", maxW, maxC, depth, names)
+}
+
+// TestC18Replay: replaying a receive log of n records, for every n up to a bound that makes a
+// day file several times larger than any read buffer, spread over one or two days. The handler
+// KEEPS what it is given (as stage.buildCache does) and the comparison happens after Parse has
+// returned: every record comes back with the name, rename, hash, size and time it was written with.
+func TestC18Replay(t *testing.T) {
+	c18T = t
+	os.Setenv("TZ", "UTC")
+	rep := vh.NewReport("C18", "receive-log replay of 1..N records, handler keeps its arguments (exhaustive enumeration)")
+	defer rep.Write()
+	maxN := 140
+	if vh.Thorough() {
+		maxN = 1500 // > 64 KiB per day file
+	}
+	type spec struct {
+		N    int `json:"records"`
+		Days int `json:"days"`
+	}
+	var rc spec
+	replay := vh.ReplaySpec(&rc)
+	k := 0
+	for days := 1; days <= 2; days++ {
+		for n := 1; n <= maxN; n++ {
+			if vh.Thorough() && n > 200 && n%97 != 0 {
+				continue // beyond 200 records every 97th count
+			}
+			k++
+			if replay && (rc.N != n || rc.Days != days) {
+				continue
+			}
+			if !replay && !vh.Mine(k) {
+				continue
+			}
+			viol := ""
+			synctest.Test(t, func(t *testing.T) {
+				dir := vh.NewSandbox()
+				defer vh.RemoveSandbox(dir)
+				in := NewFileIO(filepath.Join(dir, "in"), nil, nil, true)
+				defer in.VerifClose()
+				time.Sleep(time.Date(2000, 1, 30, 12, 0, 0, 0, time.UTC).Sub(time.Now()))
+				early := time.Now().Add(-time.Hour)
+				type rec struct {
+					name, renamed, hash string
+					size                int64
+					t                   int64
+				}
+				var want []rec
+				for i := 0; i < n; i++ {
+					if days == 2 && i == n/2 {
+						time.Sleep(24 * time.Hour)
+					}
+					r := c18Rec{kind: "recv", name: fmt.Sprintf("site/inst-%03d/data.%03d.nc", i, i), hash: vh.MD5([]byte(fmt.Sprint("content ", i))), size: int64(1000 + i), t: time.Now()}
+					if i%3 == 1 {
+						r.rename = fmt.Sprintf("renamed/%d.nc", i)
+					}
+					in.Received(r)
+					want = append(want, rec{r.name, r.rename, r.hash, r.size, r.t.Unix()})
+					time.Sleep(time.Second)
+				}
+				var got []rec
+				in.Parse(func(name, renamed, hash string, size int64, t time.Time) bool {
+					got = append(got, rec{name, renamed, hash, size, t.Unix()}) // kept as given, looked at later
+					return false
+				}, early, time.Now().Add(time.Hour))
+				if len(got) != len(want) {
+					viol = fmt.Sprintf("%d records written over %d day(s), the replay yields %d", n, days, len(got))
+					return
+				}
+				for i := range want {
+					if got[i] != want[i] {
+						viol = fmt.Sprintf("%d records written over %d day(s): record %d was written as %v, the replay yielded %v (looked at after Parse returned, as stage.buildCache does)", n, days, i, want[i], got[i])
+						return
+					}
+				}
+			})
+			rep.Executions++
+			rep.States++
+			rep.Transitions++
+			if n > 1 {
+				rep.Nontrivial++
+			}
+			rep.Outcome(fmt.Sprintf("days=%d", days))
+			if viol != "" {
+				rep.Violate("", "receive log replay: "+viol, spec{N: n, Days: days})
+			}
+		}
+	}
+	rep.Bound = fmt.Sprintf("every record count 1..%d (thorough: beyond 200 every 97th up to 1500, > 64 KiB per day file) on one day and split over two days; one record per second; every third record with a rename; handler keeps its string arguments and they are compared after Parse returned", maxN)
 }
